@@ -4,6 +4,15 @@ import AutoVerif.Drv.C02
 import AutoVerif.Drv.C05
 import AutoVerif.Drv.C09
 import AutoVerif.Drv.C11
+import AutoVerif.Drv.C17
+import AutoVerif.Drv.C16
+import AutoVerif.Drv.C15
+import AutoVerif.Drv.C07
+import AutoVerif.Drv.C06
+import AutoVerif.Drv.C12
+import AutoVerif.Drv.C19
+import AutoVerif.Drv.C13
+import AutoVerif.Drv.C10
 /-
 `drv`: JSON lines in (`{"prop","case","input","impl"}`), JSON lines out
 (`{"case","agree","spec_model","spec_impl",…}`).  For each case the model's
@@ -20,6 +29,15 @@ def dispatch (prop : String) (input impl : Json) : R Reply :=
   | "C05" => C05.handle input impl
   | "C09" => C09.handle input impl
   | "C11" => C11.handle input impl
+  | "C17" => C17.handle input impl
+  | "C16" => C16.handle input impl
+  | "C15" => C15.handle input impl
+  | "C07" => C07.handle input impl
+  | "C06" => C06.handle input impl
+  | "C12" => C12.handle input impl
+  | "C19" => C19.handle input impl
+  | "C13" => C13.handle input impl
+  | "C10" => C10.handle input impl
   | _ => throw s!"unknown property {prop}"
 
 def handleLine (line : String) : String :=
